@@ -297,7 +297,9 @@ class Refinements(object):
 BASES = [
     ('INTEGER', ('simple', 'INTEGER'), 'int'), ('Integer32', ('simple', 'Integer32'), 'int'),
     ('Unsigned32', ('app', 'Unsigned32'), 'int'), ('Gauge32', ('app', 'Gauge32'), 'int'),
-    ('enumINTEGER', ('simple', 'INTEGER', ('enum', [('off', 0), ('on', 1), ('auto-mode', 5)])), 'enum'),
+    ('enumINTEGER', ('simple', 'INTEGER', ('enum', [('off', 0), ('on', 1), ('auto-mode', 5),
+                                                       # labels that are also the names of an imported and of a local node
+                                                       ('enterprises', 7), ('ctxRoot', 9)])), 'enum'),
     ('OCTETSTRING', ('simple', 'OCTET STRING'), 'octets'), ('sizedOCTETSTRING', ('simple', 'OCTET STRING', ('size', [(0, 8)])), 'octets'),
     ('Opaque', ('app', 'Opaque'), 'octets'), ('IpAddress', ('app', 'IpAddress'), 'octets'),
     ('OID', ('simple', 'OBJECT IDENTIFIER'), 'oid'),
@@ -306,7 +308,7 @@ BASES = [
 DEFVALS = {
     'int': [('num', 0), ('num', 5), ('num', -3), ('num', U32 + 1), ('lit', "'ff'H"), ('lit', "'0a'h"), ('lit', "'0101'B"),
             ('lit', "'00'H")],
-    'enum': [('id', 'on'), ('id', 'off'), ('id', 'auto-mode'), ('num', 1), ('num', 0)],
+    'enum': [('id', 'on'), ('id', 'off'), ('id', 'auto-mode'), ('num', 1), ('num', 0), ('id', 'enterprises'), ('id', 'ctxRoot')],
     'octets': [('str', 'abc'), ('str', ''), ('str', 'two words'), ('str', 'C:\\temp\\new'), ('str', 'two\nlines'),
                ('str', 'trailing\\'), ('str', "apos'trophe"), ('str', 'caf\u00e9'), ('str', 'first\r\nsecond'), ('str', 'bare\rcr'), ('lit', "'ff00'H"), ('lit', "''H"), ('lit', "'0a0B'h"),
                ('lit', "'0000000100000001'B"), ('lit', "'11111111'B"), ('lit', "''B")],
@@ -903,5 +905,93 @@ class LongChains(object):
         return 'ok', vs, 1
 
 
+class AfterAFailedModule(object):
+    name = 'defaults-after-a-module-that-failed'
+    describe = ('ONE compiler: OLD-MIB imports a node and an enumerated type from REMOTE-MIB and fails in code generation (a BITS DEFVAL '
+                'naming no bit, a range bound that is no number, an unknown DEFVAL label of an imported type); NEW-MIB declares a node '
+                'and a type of those very names and uses them in DEFVALs.  OLD in an earlier call, or before / after NEW in one call '
+                'with errors ignored; both back ends: the defaults of NEW-MIB are those of its own declarations, and the text written '
+                'is the one a fresh compiler writes')
+
+    FAIL = {'bits-label': 'oldFlags OBJECT-TYPE SYNTAX BITS { eco(0), silent(1) } MAX-ACCESS read-write STATUS current DESCRIPTION "d" '
+                          'DEFVAL { { turbo } } ::= { remoteNode 1 }\n',
+            'range-bound': "OldRange ::= INTEGER (''H..'ff'H)\noldNode OBJECT IDENTIFIER ::= { remoteNode 2 }\n",
+            'enum-label': 'oldKind OBJECT-TYPE SYNTAX RemoteType MAX-ACCESS read-write STATUS current DESCRIPTION "d" '
+                          'DEFVAL { nowhere } ::= { remoteNode 3 }\n'}
+    REMOTE = ('REMOTE-MIB DEFINITIONS ::= BEGIN\nIMPORTS enterprises FROM SNMPv2-SMI;\nremoteNode OBJECT IDENTIFIER ::= { enterprises 777 }\n'
+              'RemoteType ::= INTEGER { a(1), y(2) }\nEND\n')
+    NEW = ('NEW-MIB DEFINITIONS ::= BEGIN\nIMPORTS OBJECT-TYPE, enterprises FROM SNMPv2-SMI;\n'
+           'newRoot OBJECT IDENTIFIER ::= { enterprises 4242 }\nremoteNode OBJECT IDENTIFIER ::= { newRoot 7 }\n'
+           'RemoteType ::= INTEGER { x(5), y(6) }\n'
+           'newOid OBJECT-TYPE SYNTAX OBJECT IDENTIFIER MAX-ACCESS read-write STATUS current DESCRIPTION "d" DEFVAL { remoteNode } ::= { newRoot 1 }\n'
+           'newKind OBJECT-TYPE SYNTAX RemoteType MAX-ACCESS read-write STATUS current DESCRIPTION "d" DEFVAL { y } ::= { newRoot 2 }\n'
+           'END\n')
+
+    def blocks(self, tier):
+        return [{'backend': b} for b in ('json', 'pysnmp')]
+
+    def cases(self, block, tier):
+        for f in sorted(self.FAIL):
+            for how in ('earlier-call', 'same-call-old-first', 'same-call-old-last', 'earlier-call-alone'):
+                yield {'backend': block['backend'], 'fail': f, 'how': how}
+
+    def texts(self, case):
+        old = ('OLD-MIB DEFINITIONS ::= BEGIN\nIMPORTS OBJECT-TYPE FROM SNMPv2-SMI remoteNode, RemoteType FROM REMOTE-MIB;\n'
+               + self.FAIL[case['fail']] + 'END\n')
+        t = env.base_texts()
+        t.update({'REMOTE-MIB': self.REMOTE, 'OLD-MIB': old, 'NEW-MIB': self.NEW})
+        return t
+
+    def compiler(self, case):
+        w = env.CaptureWriter()
+        parser = env.shared_parser('smiV2')
+        parser.reset()
+        comp = env.MibCompiler(parser, env.make_codegen(case['backend']), w)
+        comp.addSources(env.DictReader(self.texts(case)))
+        comp.addSearchers(env.StubSearcher(*env.BASE_NAMES))
+        return comp, w
+
+    def run_case(self, case):
+        from mc.checks import C12
+        sig = 'C05|after-a-failed-module|%s|%s|%s' % (case['fail'], case['how'], case['backend'])
+        comp, w = self.compiler(case)
+        fresh = comp.compile('NEW-MIB')
+        want = dict((n, d) for n, d, _ in w.written).get('NEW-MIB')
+        if fresh.get('NEW-MIB') != 'compiled' or want is None:
+            raise core.InternalError('NEW-MIB does not compile on a fresh compiler: %r' % (getattr(fresh.get('NEW-MIB'), 'error', None),))
+        comp, w = self.compiler(case)
+        vs = []
+        if case['how'] == 'earlier-call':
+            first = comp.compile('REMOTE-MIB', 'OLD-MIB', ignoreErrors=True)
+            del w.written[:]
+            res = comp.compile('NEW-MIB')
+        elif case['how'] == 'earlier-call-alone':
+            first = comp.compile('OLD-MIB', ignoreErrors=True)
+            del w.written[:]
+            res = comp.compile('NEW-MIB')
+        elif case['how'] == 'same-call-old-first':
+            first = res = comp.compile('OLD-MIB', 'NEW-MIB', ignoreErrors=True)
+        else:
+            first = res = comp.compile('NEW-MIB', 'OLD-MIB', ignoreErrors=True)
+        if first.get('OLD-MIB') != 'failed':
+            return 'old-module-%s' % first.get('OLD-MIB'), [], 3   # (not every defect stops every back end: nothing to learn here)
+        got = dict((n, d) for n, d, _ in w.written).get('NEW-MIB')
+        if res.get('NEW-MIB') != 'compiled' or got is None:
+            vs.append(('%s|not-compiled' % sig, '%r %r' % (res.get('NEW-MIB'), getattr(res.get('NEW-MIB'), 'error', None))))
+        elif C12.mask(got) != C12.mask(want):
+            a, b = C12.mask(want).splitlines(), C12.mask(got).splitlines()
+            diff = [(x, y) for x, y in zip(a, b) if x != y][:4]
+            vs.append(('%s|text-differs-from-a-fresh-compiler' % sig, 'first differing lines (fresh, long-lived): %r' % diff))
+        if got is not None and case['backend'] == 'json':
+            doc = json.loads(got)
+            d1 = (doc.get('newOid', {}).get('default') or {}).get('default') or {}
+            d2 = (doc.get('newKind', {}).get('default') or {}).get('default') or {}
+            if str(d1.get('value')).replace(' ', '') not in ('(1,3,6,1,4,1,4242,7)', '1.3.6.1.4.1.4242.7'):
+                vs.append(('%s|oid-default-differs' % sig, 'DEFVAL { remoteNode } of NEW-MIB: %r' % (d1,)))
+            if d2.get('number', d2.get('value')) not in (6, 'y'):
+                vs.append(('%s|enum-default-differs' % sig, 'DEFVAL { y } of NEW-MIB: %r' % (d2,)))
+        return 'ok' if not vs else 'bad', vs, 3
+
+
 FAMILIES = [Refinements(), Defaults(), SameNamedTypes(), RefinedChains(), ShoutedNames(), DefaultsFromFiles(), ImportedNamesakes(),
-            OddRefinementsWithDefaults(), LongChains()]
+            OddRefinementsWithDefaults(), LongChains(), AfterAFailedModule()]
